@@ -417,6 +417,8 @@ def main():
     rep.bounds = {'tasks_per_pool_call': '<= 4 (all orders)', 'levels': 2, 'files_per_level': 2}
     common.run_cases(rep, run_case, cases())
     validate_real(rep)
+    from harness import conformance
+    conformance.run_into(rep)
     return rep.finish()
 
 
